@@ -122,10 +122,11 @@ let p_out st =
   | "R" -> ORet (ret_of (next st))
   | t -> failwith ("unknown out " ^ t)
 
-let s_rsnap r = [zs r.rs_typ; zs r.rs_net] @ s_addr r.rs_addr @ [zs r.rs_tcp; zs r.rs_prio] @ s_opt (fun a -> [zs a]) r.rs_age
+let s_rel = s_opt (fun (a, p) -> [zs a; zs p])
+let s_rsnap r = [zs r.rs_typ; zs r.rs_net] @ s_addr r.rs_addr @ [zs r.rs_tcp] @ s_rel r.rs_rel @ [zs r.rs_prio] @ s_opt (fun a -> [zs a]) r.rs_age
 let s_snap (sn : snap) =
   [zs sn.sn_conn; bt sn.sn_ctl] @ s_opt (fun i -> [zs i]) sn.sn_selected @ s_opt (fun i -> [zs i]) sn.sn_nominated
-  @ s_opt (fun i -> [zs i]) sn.sn_last_nom @ [zs sn.sn_next_pair; zs sn.sn_lufrag; zs sn.sn_rufrag]
+  @ s_opt (fun i -> [zs i]) sn.sn_last_nom @ [zs sn.sn_next_pair; zs sn.sn_lufrag; zs sn.sn_rufrag; zs sn.sn_lpwd; zs sn.sn_rpwd; bt sn.sn_closed]
   @ ["P"; string_of_int (List.length sn.sn_pending)]
   @ List.concat_map (fun q -> [zs q.qs_tx] @ s_addr q.qs_dst @ [zs q.qs_net; bt q.qs_use] @ s_opt (fun v -> [zs v]) q.qs_nom @ [zs q.qs_age]) sn.sn_pending
   @ ["L"; string_of_int (List.length sn.sn_locals)]
@@ -135,7 +136,7 @@ let s_snap (sn : snap) =
       (List.sort compare (List.map (fun r -> Stdlib.String.concat " " (s_rsnap r)) sn.sn_remotes))
   @ ["C"; string_of_int (List.length sn.sn_pairs)]
   @ List.concat_map (fun p ->
-        [zs p.ps_id; zs p.ps_lh; zs p.ps_rtyp; zs p.ps_rnet] @ s_addr p.ps_raddr
+        [zs p.ps_id; zs p.ps_lh; zs p.ps_rtyp; zs p.ps_rnet] @ s_addr p.ps_raddr @ [zs p.ps_rtcp] @ s_rel p.ps_rrel
         @ [zs p.ps_state; bt p.ps_nominated; bt p.ps_nom_on_succ; zs p.ps_reqcount; zs p.ps_prio; bt p.ps_ctl;
            zs p.ps_req_sent; zs p.ps_req_recv; zs p.ps_resp_sent; zs p.ps_resp_recv;
            zs p.ps_pkts_sent; zs p.ps_bytes_sent; zs p.ps_pkts_recv; zs p.ps_bytes_recv]) sn.sn_pairs
@@ -145,7 +146,7 @@ let s_snap (sn : snap) =
 let p_snap st : snap =
   let conn = p_z st in let ctl = p_bool st in
   let sel = p_opt st p_z in let nom = p_opt st p_z in let ln = p_opt st p_z in
-  let np = p_z st in let lu = p_z st in let ru = p_z st in
+  let np = p_z st in let lu = p_z st in let ru = p_z st in let lpw = p_z st in let rpw = p_z st in let cl = p_bool st in
   expect st "P"; let n = int_of_string (next st) in
   let pend = p_list n (fun st ->
       let tx = p_z st in let d = p_addr st in let net = p_z st in let use = p_bool st in
@@ -154,22 +155,24 @@ let p_snap st : snap =
   expect st "L"; let n = int_of_string (next st) in let locals = p_list n p_z st in
   expect st "R"; let n = int_of_string (next st) in
   let rems = p_list n (fun st ->
-      let typ = p_z st in let net = p_z st in let a = p_addr st in let tcp = p_z st in let prio = p_z st in
+      let typ = p_z st in let net = p_z st in let a = p_addr st in let tcp = p_z st in
+      let rel = p_opt st (fun st -> let a = p_z st in let p = p_z st in (a, p)) in let prio = p_z st in
       let age = p_opt st p_z in
-      { rs_typ = typ; rs_net = net; rs_addr = a; rs_tcp = tcp; rs_prio = prio; rs_age = age }) st in
+      { rs_typ = typ; rs_net = net; rs_addr = a; rs_tcp = tcp; rs_rel = rel; rs_prio = prio; rs_age = age }) st in
   expect st "C"; let n = int_of_string (next st) in
   let pairs = p_list n (fun st ->
       let id = p_z st in let lh = p_z st in let rt = p_z st in let rn = p_z st in let ra = p_addr st in
+      let rtcp = p_z st in let rrel = p_opt st (fun st -> let a = p_z st in let p = p_z st in (a, p)) in
       let state = p_z st in let nomd = p_bool st in let nos = p_bool st in let rc = p_z st in let prio = p_z st in
       let c = p_bool st in let a1 = p_z st in let a2 = p_z st in let a3 = p_z st in let a4 = p_z st in
       let b1 = p_z st in let b2 = p_z st in let b3 = p_z st in let b4 = p_z st in
-      { ps_id = id; ps_lh = lh; ps_rtyp = rt; ps_rnet = rn; ps_raddr = ra; ps_state = state; ps_nominated = nomd;
+      { ps_id = id; ps_lh = lh; ps_rtyp = rt; ps_rnet = rn; ps_raddr = ra; ps_rtcp = rtcp; ps_rrel = rrel; ps_state = state; ps_nominated = nomd;
         ps_nom_on_succ = nos; ps_reqcount = rc; ps_prio = prio; ps_ctl = c; ps_req_sent = a1; ps_req_recv = a2;
         ps_resp_sent = a3; ps_resp_recv = a4; ps_pkts_sent = b1; ps_bytes_sent = b2; ps_pkts_recv = b3; ps_bytes_recv = b4 }) st in
   expect st "B"; let bs = p_z st in let br = p_z st in
   expect st "X"; let x1 = p_bool st in let x2 = p_bool st in
   { sn_conn = conn; sn_ctl = ctl; sn_selected = sel; sn_nominated = nom; sn_last_nom = ln; sn_next_pair = np;
-    sn_lufrag = lu; sn_rufrag = ru; sn_pending = pend; sn_locals = locals; sn_remotes = rems; sn_pairs = pairs;
+    sn_lufrag = lu; sn_rufrag = ru; sn_lpwd = lpw; sn_rpwd = rpw; sn_closed = cl; sn_pending = pend; sn_locals = locals; sn_remotes = rems; sn_pairs = pairs;
     sn_bytes_sent = bs; sn_bytes_recv = br; sn_index_ok = x1; sn_selected_listed = x2 }
 
 (* split a token list at ";" *)
@@ -193,7 +196,8 @@ let parse_impl_step toks : out list * snap =
 let print_step (outs, sn) =
   List.concat_map (fun o -> s_out o @ [","]) outs @ ["|"] @ s_snap sn
 
-let monitors : (Stdlib.String.t * (config -> z -> ((op * out list) * snap) list -> (Model.string * bool) list)) list ref = ref []
+let monitors : (Stdlib.String.t * (config -> z -> z -> ((op * out list) * snap) list -> (Model.string * bool) list)) list =
+  [("core", fun cfg lu lp tr -> monitor cfg lu lp tr)]
 
 let handle case obs =
   match split_on ";" case with
@@ -215,8 +219,16 @@ let handle case obs =
     ignore model_toks;
     (* monitors on the implementation's observations *)
     let impl_trace = List.map2 (fun o it -> let (outs, sn) = parse_impl_step it in ((o, outs), sn)) ops impl_steps in
-    let failed = List.concat_map (fun (_, mon) ->
-        List.filter_map (fun (n, ok) -> if ok then None else Some (ocaml_string n)) (mon cfg lp impl_trace)) !monitors in
+    let failed = List.sort_uniq compare (List.concat_map (fun (_, mon) ->
+        List.filter_map (fun (n, ok) -> if ok then None else Some (ocaml_string n)) (mon cfg lu lp impl_trace)) monitors) in
+    (* locate each failing check: the shortest prefix of the history on which it fails *)
+    List.iter (fun name ->
+        let n = List.length impl_trace in
+        let rec take k l = if k = 0 then [] else match l with [] -> [] | x :: t -> x :: take (k - 1) t in
+        let fails k = List.exists (fun (nm, ok) -> (not ok) && ocaml_string nm = name) (monitor cfg lu lp (take k impl_trace)) in
+        let rec first k = if k > n then n else if fails k then k else first (k + 1) in
+        let k = first 1 in
+        Printf.printf "MONWHERE %s step=%d op=%s\n" name (k - 1) (Stdlib.String.concat " " (List.nth opts (k - 1)))) failed;
     ((if !first_diff >= 0 then
         let i = !first_diff in
         let (s0, _) = List.fold_left (fun (s, k) o -> if k < i then (fst (step cfg s o), k + 1) else (s, k + 1)) (init lu lp, 0) ops in
